@@ -5,8 +5,9 @@
    the -W loop of main_cli, all regenerated from the source into Gen/GenReports.v) as a function of
    the trace of one `with handle_reports(...)` block, and of the two blocks of main_cli.
    What is NOT carried by the model (hence the `_partial` names on the command-line statements):
-   that the parser / compiler really produce such traces, argparse, the file system.  Those are
-   tied by real CLI runs in tools/props/c07.py. *)
+   that the parser / compiler really produce such traces, argparse, the file system (what a write does is
+   an input of the model).  Those are tied by real CLI runs in tools/props/c07.py.
+   Two clauses of the property text are false of main_cli when a WRITE fails (Props/C07_findings.v). *)
 From Coq Require Import String List NArith ZArith Bool.
 From Verif Require Import Gen.GenReports Spec.ReportSpec Model.Reports Proofs.ReportsP.
 Import ListNotations.
@@ -81,28 +82,41 @@ Theorem C07_foreign_exception_propagates : forall wc tr e,
 Proof. exact foreign_exception_propagates. Qed.
 Print Assumptions C07_foreign_exception_propagates.
 
-(* main_cli (model of its two blocks): status 1 iff an error-severity report was executed, else 0;
-   the code that writes -o output and listing is reached iff the status is 0.
-   partial: the traces are hypotheses ([disciplined] = RecoverableError only after an error report);
-   that the real parser/compiler produce such traces, and the file system, are tied by CLI runs *)
-Theorem C07_cli_fail_iff_error_partial : forall args tr1 tr2,
-  disciplined tr1 = true -> disciplined tr2 = true ->
-  let c := cli_run args tr1 tr2 in
-  let err := has_error (reports_of (executed tr1)) ||
-             (negb (has_error (reports_of (executed tr1))) && has_error (reports_of (executed tr2))) in
-  (c_status c <> 0%Z <-> err = true) /\
-  (c_status c = 0%Z \/ c_status c = 1%Z) /\
-  c_outputs_written c = negb err.
-Proof. exact cli_fail_iff_error. Qed.
-Print Assumptions C07_cli_fail_iff_error_partial.
+(* ---- main_cli with its writes (Model.Reports.cli_run).  What each write does is an input ([cli_env]):
+   the make_* files are written INSIDE the second report block (a failed write is reported as an error and
+   the loop goes on), the -o / --implicit-bin file and the listing AFTER the blocks (a failed write exits 1
+   with a plain message, no report); unknown --charset / unreadable source exit 1 before anything runs.
+   All three are `_partial`: (i) the trace of the assembly is a hypothesis ([disciplined]); (ii) the real CLI
+   and the file system are tied by runs, not proved; (iii) they state what HOLDS -- the property text asks for
+   more (status <> 0 iff an error diagnostic; nothing written on failure) and that is FALSE of main_cli when a
+   write fails: see Props/C07_findings.v (known findings write-error-leaves-earlier-outputs and
+   cli-write-failure-exits-without-diagnostic). *)
 
-(* without any hypothesis on the traces: outputs are only written when no error was reported *)
-Theorem C07_cli_no_output_after_error_partial : forall args tr1 tr2,
-  c_outputs_written (cli_run args tr1 tr2) = true ->
-  has_error (reports_of (executed tr1)) = false /\ has_error (reports_of (executed tr2)) = false /\
-  c_status (cli_run args tr1 tr2) = 0%Z.
-Proof. exact cli_outputs_only_without_errors. Qed.
-Print Assumptions C07_cli_no_output_after_error_partial.
+(* the status is 1 exactly when something failed, 0 otherwise; an error report always fails the run;
+   a failing run either reported an error or is one of the silent failures (before the assembly; a crash;
+   a failed -o / listing write) *)
+Theorem C07_cli_status_partial : forall args tr1 env, disciplined tr1 = true ->
+  let c := cli_run args tr1 env in
+  (c_status c <> 0%Z <-> cli_fails tr1 env = true) /\
+  (c_status c = 0%Z \/ c_status c = 1%Z) /\
+  (c_error_reported c = true -> c_status c <> 0%Z) /\
+  (c_status c <> 0%Z <-> c_error_reported c = true \/ silent_failure tr1 env = true).
+Proof. exact cli_status. Qed.
+Print Assumptions C07_cli_status_partial.
+
+(* an error in the assembly proper (parse / compile / link), or a failure before it, leaves no file behind *)
+Theorem C07_cli_no_files_when_assembly_fails_partial : forall args tr1 env, disciplined tr1 = true ->
+  e_pre_fail env = true \/ err1 tr1 = true ->
+  c_written (cli_run args tr1 env) = [] /\ c_status (cli_run args tr1 env) <> 0%Z.
+Proof. exact cli_no_files_when_assembly_fails. Qed.
+Print Assumptions C07_cli_no_files_when_assembly_fails_partial.
+
+(* status 0 means: no error was reported and every requested file was written *)
+Theorem C07_cli_success_writes_all_partial : forall args tr1 env, disciplined tr1 = true ->
+  c_status (cli_run args tr1 env) = 0%Z ->
+  c_written (cli_run args tr1 env) = requested env /\ c_error_reported (cli_run args tr1 env) = false /\ err1 tr1 = false.
+Proof. exact cli_success_writes_all. Qed.
+Print Assumptions C07_cli_success_writes_all_partial.
 
 (* non-vacuity *)
 Example C07_ex_error_then_recoverable :
@@ -116,8 +130,11 @@ Example C07_ex_warnings_only :
   r_delivered (run_with (warning_control_of ["no-default"; "meta-typo"]) tr) = [(PWarning, "meta-typo")].
 Proof. vm_compute. repeat split; reflexivity. Qed.
 Example C07_ex_cli :
-  c_status (cli_run ["all"] [Report PError "odd-address"] []) = 1%Z /\
-  c_outputs_written (cli_run ["all"] [Report PWarning "excess-hash"] [Report PWarning "x"]) = true /\
-  c_status (cli_run [] [] [Report PError "io-error"]) = 1%Z /\
-  c_status (cli_run [] [RaiseOther 7] []) = 1%Z.
+  c_status (cli_run ["all"] [Report PError "odd-address"] (all_ok 1 true true)) = 1%Z /\
+  c_written (cli_run ["all"] [Report PError "odd-address"] (all_ok 1 true true)) = [] /\
+  c_written (cli_run ["all"] [Report PWarning "excess-hash"] (all_ok 2 true true)) = [0; 1; 2; 3]%nat /\
+  c_status (cli_run [] [RaiseOther 7] (all_ok 0 true false)) = 1%Z /\
+  (* files written before a failing write stay; later make_* files are still written *)
+  c_written (cli_run [] [] (mk_env false [WOk; WReported "io-error"; WOk] POk POk)) = [0; 2]%nat /\
+  c_status (cli_run [] [] (mk_env false [WOk; WReported "io-error"; WOk] POk POk)) = 1%Z.
 Proof. vm_compute. repeat split; reflexivity. Qed.
